@@ -247,7 +247,8 @@ def run_case(recipe):
                         "get_model %s on the recorded export of a model with links %s" % (
                             "raised %r" % (err,) if err is not None else "returned None", sorted(exp_links)[:4]),
                         "id0-not-honoured:" + type(err).__name__ if k_like else
-                        _sig_exc(err) if err is not None else "returns-None" + ("|" + pat if pat else ""))
+                        _sig_exc(err) if err is not None else
+                        "returns-None|" + ("two-links-on-one-pair-of-assets" if shared else "no-shared-pair"))
             else:
                 r.check("C19.get.no-crash", True, FN_GM)
                 want = {i: (nm, t) for (i, nm, t) in exp_assets}
@@ -260,7 +261,7 @@ def run_case(recipe):
                 r.check("C19.get.links", not miss and not extra, FN_ADD if id0 else FN_GM,
                         "links read back: missing %s extra %s" % (sorted(miss)[:3], sorted(extra)[:3]),
                         ("missing" if miss else "") + ("extra" if extra else "") + ("|id0" if id0 else "") +
-                        ("|" + pat if pat else ""))
+                        ("|two-links-on-one-pair-of-assets" if shared else ""))
         # ---- attack graph
         ag_key = ""
         if recipe.get("ag") is not None:
